@@ -372,6 +372,8 @@ func (d *pcrDrv) sizes() []int64 {
 func (d *pcrDrv) phaseEnd() []entry { return d.settle() }
 func (d *pcrDrv) close()            { _ = d.i.Close() }
 
+var pcrSeq int
+
 var pcrVariants = []string{"setrate-up", "setrate-every-phase", "setrate-twice", "initial-high", "default-light"}
 
 // pcrCase: the configured rate (after the SetRate calls at the start of a
@@ -380,8 +382,11 @@ var pcrVariants = []string{"setrate-up", "setrate-every-phase", "setrate-twice",
 // waits up to 2 s for them: a load below 1/100 of the configured rate.
 // default-light: no SetRate, 1 Mbit/s, a handful of packets per phase.
 func pcrCase(r *rand.Rand, variant string) c12Case {
-	iv := []int64{0, 0, 5, 10, 20}[r.Intn(5)]
-	initial := []int64{0, 0, 100000, 2000000, 30000000}[r.Intn(5)]
+	// interval and initial rate cycle over the cases of a run (periods 4 and 5), so that every
+	// SetRate variant meets default and non-default intervals and small and large initial buckets
+	iv := []int64{0, 10, 20, 2}[pcrSeq%4]
+	initial := []int64{0, 100000, 30000000, 2000000, 0}[pcrSeq%5]
+	pcrSeq++
 	high := []int64{500000000, 1000000000, 2000000000}
 	r0 := high[r.Intn(3)]
 	n := 600 + r.Intn(300)
